@@ -44,6 +44,10 @@ pub enum LockOp {
 	/// the tree readers kept so far are dropped now (possibly long after their handle, while
 	/// another actor holds the directory)
 	DropReaders,
+	/// a column administration call (0 add_column, 1 drop_last_column, 2 reset_column) on the
+	/// directory while an actor holds it: the calls open the database themselves and must be
+	/// refused like any other open, changing nothing
+	AdminWhileHeld(u8),
 }
 
 #[derive(Clone, Debug, Serialize, Deserialize)]
@@ -343,6 +347,28 @@ pub fn run_case(case: &LockCase, dir: &Path) -> CaseResult {
 					}
 				}
 			},
+			LockOp::AdminWhileHeld(kind) => {
+				if holder.is_none() {
+					continue
+				}
+				let before = dir_snapshot(&db_dir);
+				let mut opts = cfg.options(&db_dir, false);
+				let (name, r) = match kind % 3 {
+					0 => ("add_column", Db::add_column(&mut opts, parity_db::ColumnOptions::default())),
+					1 => ("drop_last_column", Db::drop_last_column(&mut opts)),
+					_ => ("reset_column", Db::reset_column(&mut opts, 0, None)),
+				};
+				match r {
+					Err(parity_db::Error::Locked(_)) => {},
+					Err(e) => fail!("refusal-not-a-lock-error", "Db::{name} on a directory held by actor {:?} failed with {e} instead of the lock error", holder),
+					Ok(()) => fail!("administration-while-held", "Db::{name} succeeded on a directory held by actor {:?}", holder),
+				}
+				if dir_snapshot(&db_dir) != before {
+					fail!("refused-open-modified-files", "a refused Db::{name} changed the directory")
+				}
+				out.label("administration-call-while-held");
+				out.label("open-while-held");
+			},
 			LockOp::DropReaders => {
 				if !kept_readers.is_empty() {
 					kept_readers.clear();
@@ -455,6 +481,7 @@ fn lock_case() -> impl Strategy<Value = LockCase> {
 			1 => (0u8..4).prop_map(LockOp::DropRacing),
 			1 => (0u8..4).prop_map(LockOp::KeepReader),
 			1 => Just(LockOp::DropReaders),
+			1 => (0u8..3).prop_map(LockOp::AdminWhileHeld),
 		];
 		// one script in six contains the whole life of a stale tree reader: taken from a holder,
 		// kept beyond its handle, dropped while the NEXT holder is alive, then a further open
